@@ -4,7 +4,7 @@
 //   A  sets produced by every generating path of the library          (must be accepted + reference-valid)
 //   B  every single-field corruption of a valid set, re-imported       (verdicts must be equal)
 //   C  whole-set / configuration variants: size boundaries, q | k, p = 3 mod 8
-//   D  CheckElement exhaustively on toy groups, a in [-2, p+2]
+//   D  CheckElement exhaustively on toy groups, a in [-2p-2, 2p+2]
 //   E  CheckElement sampled on full-size groups; toy CheckGroup incl. derivation retries
 #include "engine.hh"
 #include "c06_classes.hh"
@@ -300,7 +300,9 @@ static void run_elements(long &kcase, const std::vector<Cls> &classes, const Wor
 			if (!case_begin(kcase++, d.str())) continue;
 			Fields f; toy_fields(f, t, ec.qr);
 			unsigned long F = mpz_sizeinbase(f.at("p"), 2), G = ec.qr ? (F > 1 ? F - 1 : 1) : mpz_sizeinbase(f.at("q"), 2);
-			std::vector<Z> vals; for (long a = -2; a <= (long)t.p + 2; a++) { Z z; mpz_set_si(z, a); vals.push_back(z); }
+			// the property's window is -2..p+2; the sweep also covers the two neighbouring periods (negative representatives r-p, r-2p and r+p),
+			// where an element test that forgets the lower or upper range condition answers by the residue class
+			std::vector<Z> vals; for (long a = -2 * (long)t.p - 2; a <= 2 * (long)t.p + 2; a++) { Z z; mpz_set_si(z, a); vals.push_back(z); }
 			std::vector<int> got; long long evals = 0; std::set<std::string> seen;
 			ec.run(f, F, G, vals, got);
 			judge_elems(ec, f, vals, got, "toy", evals, seen);
